@@ -927,10 +927,18 @@ func (s *Sim) Diverge(p *Profile) {
 	// still unstable when the new leader's appends or snapshot arrive
 	stallOld := d.Int(0, 2, "stallold") == 0 && leader.Opts.Async
 	if stallOld {
-		leader.SlowAppend = true
+		// either the whole append thread lags (then the node cannot answer
+		// appends either: its responses travel with that thread), or only its
+		// acknowledgements to raft do (entries are written but stay in the
+		// unstable log)
+		if d.Int(0, 2, "ackonly") > 0 {
+			leader.SlowAck = true
+		} else {
+			leader.SlowAppend = true
+		}
 		s.Stats.inc("async.stalled")
 		k += d.Int(0, 3, "moreold")
-		defer func() { leader.SlowAppend = false }()
+		defer func() { leader.SlowAppend, leader.SlowAck = false, false }()
 	}
 	for i := 0; i < k && leader.Up; i++ {
 		s.Propose(leader, s.drawSize(p))
@@ -968,6 +976,16 @@ func (s *Sim) Diverge(p *Profile) {
 		}
 	}
 	if d.Int(0, 3, "heal") > 0 {
+		if d.Int(0, 1, "losequeued") == 1 {
+			// what was sent towards the old leader across the partition is
+			// lost, not merely late: the new leader has to find the point of
+			// divergence by probing (and may need a snapshot by then)
+			for i := len(s.Net.Pool) - 1; i >= 0; i-- {
+				if s.Net.Pool[i].To == leader.ID {
+					s.Net.remove(i)
+				}
+			}
+		}
 		s.Heal()
 		if stallOld {
 			// the new leader reaches the old one while its tail is unstable
